@@ -379,3 +379,9 @@ N.append({'id': 'cxx-inequalities-mirrored', 'generator': 'swap-rel', 'file': No
 # (63 sites).  The first run raised alarms in T6, F6, G4, K7py and an analysis error in K6py; the
 # Python front end now hands the rules a tree with the constant operand on the right.
 N.append({'id': 'py-comparisons-mirrored', 'generator': 'py-swap-cmp', 'file': None, 'edits': []})
+
+# `++i` in a for header written `i += 1` (54 sites) and `x.empty()` written `(x.size() == 0)`
+# (24 sites).  The first run raised a K6 alarm and a G6 analysis error: the namespace emptiness
+# test was recognised in one spelling only; `_ns_empty_test` now reads empty(), size() == 0,
+# size() != 0, size() > 0 and their mirrored forms.
+N.append({'id': 'cxx-idioms-respelt', 'generator': 'cxx-idioms', 'file': None, 'edits': []})
